@@ -42,9 +42,12 @@ def init_worker():
     simrun.install()
 
 
-def with_faults(prog, plan):
-    """plan: list of (eid, position, exception name)."""
+def with_faults(prog, plan, switch=None):
+    """plan: list of (eid, position, exception name); switch: optional
+    (eid, strategy): that handler changes the error strategy when it runs."""
     p = copy.deepcopy(prog)
+    if switch is not None:
+        p["events"][str(switch[0])].insert(0, ["strategy", switch[1]])
     for eid, pos, exc in plan:
         al = p["events"][str(eid)]
         i = {"before": 0, "middle": len(al) // 2, "after": len(al)}[pos]
@@ -52,8 +55,8 @@ def with_faults(prog, plan):
     return p
 
 
-def build_case(prog, plan, strategy, mode, k=0):
-    p = with_faults(prog, plan)
+def build_case(prog, plan, strategy, mode, k=0, switch=None):
+    p = with_faults(prog, plan, switch)
     case = {"program": p, "strategy": strategy, "mode": mode,
             "plan": [list(x) for x in plan], "sched": {"kind": "S0"}}
     ref = devscommon.make_ref(case)
@@ -113,7 +116,9 @@ def generate(seed, tier, idx=0):
     plan = [(rng.choice(ids), rng.choice(POS), rng.choice(program.EXCS))
             for _ in range(rng.randint(1, 3))]
     plan = list({p[0]: p for p in plan}.values())
-    c = build_case(prog, plan, rng.choice([1, 2, 3]), rng.choice(MODES), rng.randint(0, 5))
+    switch = (rng.choice(ids), rng.choice([1, 2, 3])) if rng.random() < 0.3 else None
+    c = build_case(prog, plan, rng.choice([1, 2, 3]), rng.choice(MODES), rng.randint(0, 5),
+                   switch)
     if rng.random() < 0.35:
         return polling_case(rng, seed, prog, plan)
     if rng.random() < 0.3:
@@ -237,7 +242,11 @@ def execute(case):
                     pos = POS[(j + strategy + k) % 3]
                     exc = program.EXCS[(j + k) % len(program.EXCS)]
                     k += 1
-                    sub = build_case(prog, [(eid, pos, exc)], strategy, mode, k)
+                    switch = None
+                    if k % 3 == 0 and j > 0:
+                        # an earlier handler switches to another strategy mid-run
+                        switch = (ids[0], 1 + (strategy + k // 3) % 3)
+                    sub = build_case(prog, [(eid, pos, exc)], strategy, mode, k, switch)
                     r, findings, fired, nontriv = run_single(sub)
                     n += 1
                     clean = clean and r.clean
